@@ -59,6 +59,7 @@ def jobs(tier, seed):
     for ch in C.chunks(units, 8):
         out.append({'fn': 'powers', 'cfg': {'units': ch}})
         out.append({'fn': 'scalars', 'cfg': {'units': ch}})
+        out.append({'fn': 'scalars', 'cfg': {'units': ch, 'fa': 'frac'}})
     for prog in range(len(USER_PROGS)):
         out.append({'fn': 'user_prog', 'cfg': {'prog': prog}})
     out.append({'fn': 'pair_ops', 'cfg': {'pairs': [['N', 'km']], 'fa': 'dec', 'fb': 'frac', 'canary': True},
@@ -230,7 +231,7 @@ def scalars(E, cfg):
     if cls.quantum is not None:
         E.ok('skipped-quantized')       # C05
         return
-    a = E.rational('a', 'dec')
+    a = E.rational('a', cfg.get('fa', 'dec'))
     k = E.rational('k', 'frac')
     E.assume(k != 0)
     E.assume(a != 0)
@@ -243,7 +244,11 @@ def scalars(E, cfg):
         E.check(r.amount == exact, label + '-value', key=label + ':value', info=us)
     for label, fn, exact in (('qty-div-float', lambda: qa / 2.0, a / 2), ('qty-times-float', lambda: qa * 0.5, a / 2),
                              ('float-times-qty', lambda: 0.25 * qa, a / 4), ('unit-times-float', lambda: u * 1.5, Fraction(3, 2)),
-                             ('unit-div-float', lambda: u / 0.5, Fraction(2))):
+                             ('unit-div-float', lambda: u / 0.5, Fraction(2)),
+                             # floats count with their exact binary value
+                             ('qty-times-float-inexact', lambda: qa * 0.1, a * Fraction(0.1)),
+                             ('float-times-qty-inexact', lambda: 0.3 * qa, a * Fraction(0.3)),
+                             ('qty-div-float-inexact', lambda: qa / 0.7, a / Fraction(0.7))):
         r = fn()
         E.check(type(r) is cls and r.unit is u, label + '-keeps-class-unit', key=label + ':class-unit', info=us)
         E.check(r.amount == exact, label + '-value', key=label + ':value', info=us)
@@ -411,7 +416,55 @@ def user_derived(E, cfg):
             key='user-derived:area-div')
 
 
-USER_PROGS = ['user_price', 'user_cancel', 'user_derived']
+def user_rejected(E, cfg):
+    """a declaration that is rejected (second type for a dimension, second unit for a symbol) does not change
+    what later products / quotients resolve to"""
+    import quantity.predefined as pre
+    from quantity import Quantity
+    a = E.rational('a', 'dec')
+    b = E.rational('b', 'frac')
+    E.assume(E.And(a != 0, b != 0))
+    case = E.choice('case', ['dup-force', 'dup-velocity-user', 'dup-symbol-derived', 'none'])
+    X = C.mk_cls('XLen', ref_unit_symbol='x0')
+    Y = C.mk_cls('YDur', ref_unit_symbol='y0')
+    V = C.mk_cls('XVel', define_as=X / Y, ref_unit_symbol='v0')
+    x1 = X.new_unit('x1', None, Fraction(5, 2) * X.ref_unit)
+    y1 = Y.new_unit('y1', None, Fraction(60) * Y.ref_unit)
+    if case == 'dup-force':
+        C.expect_raises(E, lambda: C.mk_cls('Drag', define_as=pre.Energy / pre.Length, ref_unit_symbol='Dr'),
+                        ValueError, 'second-type-for-dimension-rejected', [case])
+    elif case == 'dup-velocity-user':
+        C.expect_raises(E, lambda: C.mk_cls('XVel2', define_as=X / Y, ref_unit_symbol='vz'),
+                        ValueError, 'second-type-for-dimension-rejected', [case])
+    elif case == 'dup-symbol-derived':
+        C.expect_raises(E, lambda: V.derive_unit_from(x1, y1, symbol='v0'),
+                        ValueError, 'second-unit-for-symbol-rejected', [case])
+    info = [case]
+    for label, fn, cls, exact in (
+            ('t*m/s2', lambda: Quantity(a, pre.TONNE) * Quantity(b, pre.METRE_PER_SECOND_SQUARED), pre.Force, a * 1000 * b),
+            ('J/m', lambda: Quantity(a, pre.JOULE) / Quantity(b, pre.METRE), pre.Force, a / b),
+            ('N*km', lambda: Quantity(a, pre.NEWTON) * Quantity(b, pre.KILOMETRE), pre.Energy, a * b * 1000),
+            ('x1/y1', lambda: Quantity(a, x1) / Quantity(b, y1), V, a * Fraction(5, 2) / (b * 60)),
+            ('x0/y1', lambda: Quantity(a, X.ref_unit) / Quantity(b, y1), V, a / (b * 60)),
+            ('v0*y1', lambda: Quantity(a, V.ref_unit) * Quantity(b, y1), X, a * b * 60)):
+        try:
+            r = fn()
+        except Exception as e:
+            E.fail('after-rejected-' + label, key='after-rejected:%s' % type(e).__name__, info=info + [label])
+            continue
+        E.check(type(r) is cls, 'after-rejected-class', key='after-rejected:class', info=info + [label, type(r).__name__])
+        E.check(r.unit.qty_cls is cls and r.amount * C.scale(r.unit) == exact, 'after-rejected-value',
+                key='after-rejected:value', info=info + [label])
+        # the result takes part in further arithmetic of its type
+        try:
+            s2 = r + r
+        except Exception as e:
+            E.fail('after-rejected-sum', key='after-rejected:sum-%s' % type(e).__name__, info=info + [label])
+        else:
+            E.check(s2.amount == 2 * r.amount, 'after-rejected-sum', key='after-rejected:sum', info=info + [label])
+
+
+USER_PROGS = ['user_price', 'user_cancel', 'user_derived', 'user_rejected']
 
 
 def user_prog(E, cfg):
